@@ -6,6 +6,8 @@ Decoding of the operation lines shared by the C16 and C20 harnesses into the scr
 
     package <hex>                              (C16 only)
     filter <hex pattern> <strict 0|1> <invert 0|1>
+    realio                                     (real-I/O sub-mode of the harness; the writers' output is the same)
+    separate                                   (C20 with realio: `-p`, every test in its own process)
     verbose <0|1|2>                            (quiet, -v, -vv: `TestOutput::verbose(level)` before the run)
     test <hex group> <hex name> <hex file> <line> <run|ign>
     print <hex file> <line> <hex text>         (actions belong to the latest test)
@@ -25,6 +27,8 @@ structure Reg where
   package : Text.Bytes := []
   filter  : Option Filter := none
   verbosity : Nat := 0
+  realio    : Bool := false
+  separate  : Bool := false
   tests   : List Script := []        -- newest first
 deriving Inhabited
 
@@ -39,6 +43,8 @@ def addAct (r : Reg) (a : Act) : Reg :=
 def applyOp (r : Reg) (w : List String) : Option Reg :=
   match w with
   | ["package", p] => (Proto.unhex? p).map fun p => { r with package := p }
+  | ["realio"] => some { r with realio := true }
+  | ["separate"] => some { r with separate := true }
   | ["verbose", n] => n.toNat?.bind fun n => if n ≤ 2 then some { r with verbosity := n } else none
   | ["filter", p, s, i] =>
     (Proto.unhex? p).map fun p => { r with filter := some { pat := p, strict := s == "1", invert := i == "1" } }
